@@ -775,4 +775,391 @@ theorem ptrLoop_window (s : State) (maxOps : Nat) : ∀ (es : List Nat) (total :
         rw [this]
         exact Nat.le_refl _
 
+
+/-! ### what `saveStreams` leaves in the store, exactly -/
+
+/-- the value written for a cached stream -/
+def finVal (ee : Bool) (st : Stream) : Stream := if ee then st.atEpochEnd else st
+/-- the stream leaves the active list -/
+def gone (ee : Bool) (st : Stream) : Prop := ee = true ∧ st.atEpochEnd.numEpochs ≤ st.atEpochEnd.filled
+
+theorem atEpochEnd_id (st : Stream) : st.atEpochEnd.id = st.id := by unfold Stream.atEpochEnd; split <;> rfl
+theorem atEpochEnd_start (st : Stream) : st.atEpochEnd.start = st.start := by unfold Stream.atEpochEnd; split <;> rfl
+
+theorem getS_setStream_ne (s : State) (hs : SStruct s) (v : Stream) (hv : ∃ st0, getS s.streams v.id = some st0) (x : Nat) (hx : x ≠ v.id) :
+    getS (setStream s v).streams x = getS s.streams x := by
+  obtain ⟨st0, h0⟩ := hv
+  obtain ⟨h1, _⟩ := getS_some hs.sid h0
+  show getS (s.streams.set (v.id - 1) v) x = _
+  exact getS_set_ne _ _ _ _ (by omega)
+
+theorem getS_setStream_eq (s : State) (hs : SStruct s) (v : Stream) (hv : ∃ st0, getS s.streams v.id = some st0) :
+    getS (setStream s v).streams v.id = some v := by
+  obtain ⟨st0, h0⟩ := hv
+  obtain ⟨h1, hk, _⟩ := getS_some hs.sid h0
+  show getS (s.streams.set (v.id - 1) v) v.id = _
+  have := getS_set_eq s.streams (v.id - 1) v hk
+  have e : v.id - 1 + 1 = v.id := by omega
+  rw [e] at this; exact this
+
+theorem saveOne_exact (ee : Bool) (s : State) (hs : SStruct s) (st : Stream) (hcoh : SCoh s.streams st) (s1 : State)
+    (h : (if ee then saveStreamEnd st.atEpochEnd s else .ok (setStream s st)) = .ok s1) :
+    s1.ptrs = s.ptrs ∧ s1.streams.length = s.streams.length ∧
+    (∀ x, x ≠ st.id → getS s1.streams x = getS s.streams x) ∧
+    getS s1.streams st.id = some (finVal ee st) ∧
+    (∀ x, x ∈ s1.active.ids ↔ x ∈ s.active.ids ∧ (x = st.id → ¬ gone ee st)) := by
+  obtain ⟨st0, hget, _, _⟩ := hcoh
+  obtain ⟨n1, _, _⟩ := List.nodup_append.1 hs.nodup
+  cases ee with
+  | false =>
+    simp only [Bool.false_eq_true, if_false, Except.ok.injEq] at h
+    subst h
+    refine ⟨rfl, by simp [setStream], fun x hx => getS_setStream_ne s hs st ⟨st0, hget⟩ x hx, ?_, ?_⟩
+    · unfold finVal; simp only [Bool.false_eq_true, if_false]; exact getS_setStream_eq s hs st ⟨st0, hget⟩
+    · intro x; unfold gone; simp [setStream]
+  | true =>
+    simp only [if_true] at h
+    have hex : ∃ st0, getS s.streams st.atEpochEnd.id = some st0 := ⟨st0, by rw [atEpochEnd_id]; exact hget⟩
+    unfold saveStreamEnd at h
+    by_cases hf : st.atEpochEnd.filled ≥ st.atEpochEnd.numEpochs
+    · rw [if_pos hf] at h
+      cases hd : Refs.del s.active st.atEpochEnd.start st.atEpochEnd.id with
+      | none => simp [hd] at h
+      | some a =>
+        simp only [hd] at h
+        cases hfi : Refs.add s.finished st.atEpochEnd.start st.atEpochEnd.id with
+        | none => simp [hfi] at h
+        | some f =>
+          simp only [hfi, Except.ok.injEq] at h
+          subst h
+          obtain ⟨_, _, d3⟩ := Refs.del_spec (fun _ => 0) s.active _ _ a hd
+          obtain ⟨_, j2⟩ := d3 n1
+          have hs' : SStruct { s with active := a, finished := f } := (remove_active s hs _ _ a f hd).1
+          refine ⟨rfl, by simp [setStream], ?_, ?_, ?_⟩
+          · intro x hx
+            exact getS_setStream_ne _ hs' _ hex x (by rw [atEpochEnd_id]; exact hx)
+          · unfold finVal; simp only [if_true]
+            have := getS_setStream_eq _ hs' _ hex
+            rw [atEpochEnd_id] at this; exact this
+          · intro x
+            show x ∈ a.ids ↔ _
+            rw [j2 x, atEpochEnd_id]
+            unfold gone
+            constructor
+            · intro ⟨h1, h2⟩; exact ⟨h1, fun he => absurd he h2⟩
+            · intro ⟨h1, h2⟩
+              refine ⟨h1, fun he => h2 he ⟨rfl, hf⟩⟩
+    · rw [if_neg hf] at h
+      simp only [Except.ok.injEq] at h
+      subst h
+      refine ⟨rfl, by simp [setStream], ?_, ?_, ?_⟩
+      · intro x hx
+        exact getS_setStream_ne _ hs _ hex x (by rw [atEpochEnd_id]; exact hx)
+      · unfold finVal; simp only [if_true]
+        have := getS_setStream_eq _ hs _ hex
+        rw [atEpochEnd_id] at this; exact this
+      · intro x
+        show x ∈ s.active.ids ↔ _
+        unfold gone
+        constructor
+        · intro h1; exact ⟨h1, fun _ hg => hf hg.2⟩
+        · intro h1; exact h1.1
+
+
+theorem saveStreams_exact (ee : Bool) : ∀ (l : List Stream) (s s' : State), SStruct s → (l.map (·.id)).Nodup →
+    (∀ st ∈ l, SCoh s.streams st ∧ st.id ∈ s.active.ids) → saveStreams ee l s = .ok s' →
+    s'.ptrs = s.ptrs ∧ s'.streams.length = s.streams.length ∧
+    (∀ x, x ∉ l.map (·.id) → getS s'.streams x = getS s.streams x) ∧
+    (∀ st ∈ l, getS s'.streams st.id = some (finVal ee st)) ∧
+    (∀ x, x ∈ s'.active.ids ↔ x ∈ s.active.ids ∧ ∀ st ∈ l, st.id = x → ¬ gone ee st) := by
+  intro l
+  induction l with
+  | nil =>
+    intro s s' _ _ _ h
+    simp only [saveStreams, Except.ok.injEq] at h
+    subst h
+    exact ⟨rfl, rfl, fun _ _ => rfl, by simp, by simp⟩
+  | cons st rest ih =>
+    intro s s' hs hnd hall h
+    have hnd0 : (st.id :: rest.map (·.id)).Nodup := hnd
+    obtain ⟨hn1, hn2⟩ := List.nodup_cons.1 hnd0
+    have hne : ∀ y ∈ rest, y.id ≠ st.id := fun y hy he => hn1 (by rw [← he]; exact List.mem_map_of_mem (f := (·.id)) hy)
+    obtain ⟨hcoh, hact⟩ := hall st List.mem_cons_self
+    have step : ∃ s1, (if ee then saveStreamEnd st.atEpochEnd s else .ok (setStream s st)) = .ok s1 ∧ saveStreams ee rest s1 = .ok s' := by
+      unfold saveStreams at h
+      by_cases he : ee = true
+      · simp only [he, if_true] at h ⊢
+        cases hs1 : saveStreamEnd st.atEpochEnd s with
+        | error e => simp [hs1] at h
+        | ok s1 => simp only [hs1] at h; exact ⟨s1, rfl, h⟩
+      · have he' : ee = false := by simpa using he
+        simp only [he', Bool.false_eq_true, if_false] at h ⊢
+        exact ⟨_, rfl, h⟩
+    obtain ⟨s1, hw, hrest⟩ := step
+    obtain ⟨e1, e2, e3, e4, e5⟩ := saveOne_exact ee s hs st hcoh s1 hw
+    -- structure and coherence carry over (reuse the solvency-side lemma)
+    have hw' : setStream s (finVal ee st) = s1 ∨ saveStreamEnd (finVal ee st) s = .ok s1 := by
+      cases ee with
+      | false => left; simp only [Bool.false_eq_true, if_false, Except.ok.injEq] at hw; unfold finVal; simpa using hw
+      | true => right; simp only [if_true] at hw; unfold finVal; simpa using hw
+    have hv : finVal ee st = st ∨ finVal ee st = st.atEpochEnd := by
+      unfold finVal; cases ee <;> simp
+    obtain ⟨a1, _, _, _, _, a6, _⟩ := saveOne s hs st hcoh hact (finVal ee st) hv s1 hw'
+    have hall' : ∀ y ∈ rest, SCoh s1.streams y ∧ y.id ∈ s1.active.ids := by
+      intro y hy
+      obtain ⟨c1, c2⟩ := hall y (List.mem_cons_of_mem _ hy)
+      obtain ⟨f1, f2⟩ := a6 y.id (hne y hy)
+      exact ⟨SCoh_congr f1 c1, f2 c2⟩
+    obtain ⟨b1, b2, b3, b4, b5⟩ := ih s1 s' a1 hn2 hall' hrest
+    refine ⟨b1.trans e1, b2.trans e2, ?_, ?_, ?_⟩
+    · intro x hx
+      simp only [List.map_cons, List.mem_cons, not_or] at hx
+      rw [b3 x hx.2, e3 x hx.1]
+    · intro y hy
+      rcases List.mem_cons.1 hy with h1 | h1
+      · rw [h1, b3 st.id hn1]; exact e4
+      · exact b4 y h1
+    · intro x
+      rw [b5 x, e5 x]
+      constructor
+      · intro ⟨⟨h1, h2⟩, h3⟩
+        refine ⟨h1, ?_⟩
+        intro y hy hyx
+        rcases List.mem_cons.1 hy with h4 | h4
+        · rw [h4] at hyx; rw [h4]; exact h2 hyx.symm
+        · exact h3 y h4 hyx
+      · intro ⟨h1, h2⟩
+        exact ⟨⟨h1, fun he => h2 st List.mem_cons_self he.symm⟩, fun y hy hyx => h2 y (List.mem_cons_of_mem _ hy) hyx⟩
+
+
+/-! ### the state invariant -/
+
+def ptrOfEpoch (s : State) (e : Nat) : Pointer := s.ptrs.getD e Pointer.last
+
+/-- a stream's bound: while active, what it has handed out, plus what is still pending in this epoch, plus
+    a full round of shares for every later epoch, fits into its coins -/
+def SBst (s : State) (st : Stream) (i : Nat) : Prop :=
+  if st.id ∈ s.active.ids then
+    amt st.distributed i + pendId (ptrOfEpoch s st.epochId) st i + (st.numEpochs - st.filled - 1) * sharesOf st st.recs i ≤ amt st.coins i
+  else amt st.distributed i ≤ amt st.coins i
+
+def SB (s : State) : Prop := ∀ st ∈ s.streams, ∀ i, SBst s st i
+
+/-- static facts about every stream: total weight is the sum of the weights, records sorted by gauge id -/
+structure SStat (s : State) : Prop where
+  tw : ∀ st ∈ s.streams, st.totalWeight = totalWeightOf st.recs
+  recs : ∀ st ∈ s.streams, StrictInc (st.recs.map (·.gauge))
+
+theorem SB_noOver (s : State) (h : SB s) : NoOver s.streams := by
+  intro st hst i
+  have := h st hst i
+  unfold SBst at this
+  split at this
+  · omega
+  · exact this
+
+theorem getS_of_mem {ss : List Stream} (hid : SidOK ss) {st : Stream} (h : st ∈ ss) : getS ss st.id = some st := by
+  obtain ⟨k, hk, he⟩ := List.getElem_of_mem h
+  have := hid k hk
+  rw [he] at this
+  unfold getS
+  rw [this]
+  simp [he, hk]
+
+theorem ptrLoop_ptrs_other (s : State) (maxOps : Nat) (e' : Nat) : ∀ (es : List Nat) (total : Nat) (c : Caches) (ps : List Pointer),
+    e' ∉ es → (ptrLoop s maxOps es total c ps).2.2.getD e' Pointer.last = ps.getD e' Pointer.last := by
+  intro es
+  induction es with
+  | nil => intro total c ps _; rfl
+  | cons e rest ih =>
+    intro total c ps hne
+    unfold ptrLoop
+    split
+    · rfl
+    · simp only
+      rw [ih _ _ _ (fun hm => hne (List.mem_cons_of_mem _ hm))]
+      simp only [List.getD_eq_getElem?_getD]
+      rw [List.getElem?_set_ne (fun x => hne (by rw [x]; exact List.mem_cons_self))]
+
+theorem mem_sortByDuration (es : List Nat) (x : Nat) (h : x ∈ sortByDuration es) : x ∈ es := by
+  unfold sortByDuration at h
+  simp only [List.mem_append, List.mem_filter] at h
+  rcases h with (h | h) | h <;> exact h.1
+
+theorem streamsOf_ids (ss : List Stream) (hid : SidOK ss) : ∀ (ids : List Nat), (∀ x ∈ ids, 1 ≤ x ∧ x ≤ ss.length) →
+    (ids.filterMap (getS ss)).map (·.id) = ids := by
+  intro ids
+  induction ids with
+  | nil => intro _; rfl
+  | cons x xs ih =>
+    intro hv
+    obtain ⟨h1, h2⟩ := hv x List.mem_cons_self
+    have hk : x - 1 < ss.length := by omega
+    have hg : getS ss x = some ss[x - 1] := by
+      unfold getS
+      have : ¬ x = 0 := by omega
+      simp [this, hk]
+    have hidx : (ss[x - 1]).id = x := by rw [hid _ hk]; omega
+    simp only [List.filterMap_cons, hg, List.map_cons, hidx]
+    rw [ih (fun y hy => hv y (List.mem_cons_of_mem _ hy))]
+
+theorem activeStreams_ids (s : State) (hs : SStruct s) : (activeStreams s).map (·.id) = s.active.ids :=
+  streamsOf_ids s.streams hs.sid s.active.ids (fun x hx => hs.valid x (List.mem_append_left _ hx))
+
+
+theorem saveStreamEnd_now (st : Stream) (s s' : State) (h : saveStreamEnd st s = .ok s') : s'.now = s.now := by
+  unfold saveStreamEnd at h
+  repeat' (first | split at h | dsimp only at h)
+  all_goals first | (simp at h; done) | (simp only [Except.ok.injEq] at h; subst h; rfl)
+
+theorem saveStreams_now (ee : Bool) : ∀ (l : List Stream) (s s' : State), saveStreams ee l s = .ok s' → s'.now = s.now := by
+  intro l
+  induction l with
+  | nil => intro s s' h; simp only [saveStreams, Except.ok.injEq] at h; subst h; rfl
+  | cons st rest ih =>
+    intro s s' h
+    unfold saveStreams at h
+    by_cases he : ee = true
+    · simp only [he, if_true] at h
+      cases hs : saveStreamEnd st.atEpochEnd s with
+      | error e => simp [hs] at h
+      | ok s1 =>
+        simp only [hs] at h
+        rw [ih _ _ (by rw [he]; exact h), saveStreamEnd_now _ _ _ hs]
+    · have he' : ee = false := by simpa using he
+      simp only [he', Bool.false_eq_true, if_false] at h
+      rw [ih _ _ (by rw [he']; exact h)]; rfl
+
+/-! ### `Keeper.Distribute` of x/streamer, exactly what it leaves in the stream store -/
+
+/-- what `strDistribute_core` establishes -/
+def CoreConcl (s : State) (es : List Nat) (streams : List Stream) (ee : Bool) (s' : State) : Prop :=
+    ∃ (c : Caches),
+      s'.streams.length = s.streams.length ∧ s'.upcoming = s.upcoming ∧ s'.now = s.now ∧
+      (∀ e', e' ∉ es → s'.ptrs.getD e' Pointer.last = s.ptrs.getD e' Pointer.last) ∧
+      (∀ x, x ∉ streams.map (·.id) → getS s'.streams x = getS s.streams x) ∧
+      (∀ v ∈ c.streams, v.id ∈ streams.map (·.id)) ∧
+      (∀ x ∈ streams.map (·.id), ∃ v ∈ c.streams, v.id = x) ∧
+      (∀ v ∈ c.streams, getS s'.streams v.id = some (finVal ee v)) ∧
+      (∀ x, x ∈ s'.active.ids ↔ x ∈ s.active.ids ∧ ∀ v ∈ c.streams, v.id = x → ¬ gone ee v) ∧
+      (∀ v ∈ c.streams, ∃ st0, getS s.streams v.id = some st0 ∧ v = { st0 with distributed := v.distributed } ∧
+        ∀ i, amt v.distributed i + pendId (s'.ptrs.getD v.epochId Pointer.last) v i
+              ≤ amt st0.distributed i + pendId (s.ptrs.getD st0.epochId Pointer.last) st0 i)
+
+theorem strDistribute_core (s : State) (es : List Nat) (streams : List Stream) (maxOps : Nat) (ee : Bool) (s' : State)
+    (hg : GInv s) (hs : SStruct s) (hin : GoodInput s streams)
+    (hst : ∀ st ∈ streams, StrictInc (st.recs.map (·.gauge)) ∧ st.id < maxU64)
+    (h : strDistribute s es streams maxOps ee = .ok s') : CoreConcl s es streams ee s' := by
+  have hin0 := hin
+  have hin := sortById_good s streams hin
+  unfold strDistribute at h
+  have hgc0 : GoodCache ⟨sortById streams, [], []⟩ := by
+    refine ⟨hin.1, sorted_sortById streams, ?_, ?_⟩
+    · intro st hm; exact (hst st ((mem_sortById streams st).1 hm)).1
+    · intro st hm; exact (hst st ((mem_sortById streams st).1 hm)).2
+  have hci := ptrLoop_CI s hg.ids maxOps (sortByDuration es) 0 ⟨sortById streams, [], []⟩ s.ptrs
+    ⟨by simp, by simp, by intro i; simp [extras]⟩
+  have hsci := ptrLoop_SCI2 s s.streams ((sortById streams).map (·.id)) maxOps (sortByDuration es) 0 ⟨sortById streams, [], []⟩ s.ptrs
+    ⟨⟨hin.1, fun st hst => ⟨st, (hin.2 st hst).1, rfl, fun _ => Nat.le_refl _⟩, by
+        intro i
+        unfold sExtras
+        apply sum_zero_of_all_zero
+        intro x hx
+        obtain ⟨st, hst, he⟩ := List.mem_map.1 hx
+        rw [← he]; unfold sExtra storedDist; rw [(hin.2 st hst).1]; simp⟩, rfl⟩
+  have hwin := ptrLoop_window s maxOps (sortByDuration es) 0 ⟨sortById streams, [], []⟩ s.ptrs hgc0
+  have hpo : ∀ e', e' ∉ es → (ptrLoop s maxOps (sortByDuration es) 0 ⟨sortById streams, [], []⟩ s.ptrs).2.2.getD e' Pointer.last = s.ptrs.getD e' Pointer.last :=
+    fun e' he' => ptrLoop_ptrs_other s maxOps e' _ _ _ _ (fun hm => he' (mem_sortByDuration es e' hm))
+  generalize ptrLoop s maxOps (sortByDuration es) 0 ⟨sortById streams, [], []⟩ s.ptrs = res at h hci hsci hwin hpo
+  obtain ⟨tot, c, ps⟩ := res
+  dsimp only at h hci hsci hwin hpo
+  obtain ⟨ci1, ci2, ci3⟩ := hci
+  obtain ⟨⟨sc1, sc2, sc3⟩, sc4⟩ := hsci
+  obtain ⟨wg, wq⟩ := hwin
+  have hne : streamerAddr ≠ incAddr := by decide
+  have hidmem : ∀ x, x ∈ (sortById streams).map (·.id) ↔ x ∈ streams.map (·.id) := by
+    intro x
+    constructor
+    · intro hm; obtain ⟨y, hy, he⟩ := List.mem_map.1 hm; rw [← he]; exact List.mem_map_of_mem (f := (·.id)) ((mem_sortById streams y).1 hy)
+    · intro hm; obtain ⟨y, hy, he⟩ := List.mem_map.1 hm; rw [← he]; exact List.mem_map_of_mem (f := (·.id)) ((mem_sortById streams y).2 hy)
+  have key : ∀ b : Bank, (∀ i, amt (b.get incAddr) i = amt (s.bank.get incAddr) i + amt c.distributed i) →
+      ∀ s2, incDistribute { s with ptrs := ps, bank := b } c.gauges ee = .ok s2 → saveStreams ee c.streams s2 = .ok s' → CoreConcl s es streams ee s' := by
+    intro b hb1 s2 hinc hsave
+    obtain ⟨_, _, r3, _, _, _, _⟩ := incDistribute_spec { s with ptrs := ps, bank := b } c.gauges ee s2
+      hg.ids hg.bounded ci1 ci2
+      (by intro i; simp only; rw [ci3 i, hb1 i]; have := hg.solvent i; omega) hinc
+    have e1 : s2.streams = s.streams := by rw [r3]
+    have e2 : s2.active = s.active := by rw [r3]
+    have e3 : s2.upcoming = s.upcoming := by rw [r3]
+    have e4 : s2.ptrs = ps := by rw [r3]
+    have e5 : s2.now = s.now := by rw [r3]
+    have hs2 : SStruct s2 := SStruct_congr e1 e2 e3 hs
+    have hall : ∀ st ∈ c.streams, SCoh s2.streams st ∧ st.id ∈ s2.active.ids := by
+      intro st hst
+      refine ⟨by rw [e1]; exact sc2 st hst, ?_⟩
+      have : st.id ∈ (sortById streams).map (·.id) := by rw [← sc4]; exact List.mem_map_of_mem (f := (·.id)) hst
+      obtain ⟨y, hy, he⟩ := List.mem_map.1 this
+      rw [e2, ← he]; exact (hin.2 y hy).2
+    obtain ⟨q1, q2, q3, q4, q5⟩ := saveStreams_exact ee c.streams s2 s' hs2 sc1 hall hsave
+    have qu := (saveStreams_spec ee c.streams s2 s' hs2 sc1 hall hsave).2.2.2.1
+    have qn : s'.now = s2.now := by
+      have := saveStreams_same ee _ _ _ hsave
+      -- `now` is not part of `Same`; it is untouched by construction
+      exact saveStreams_now ee _ _ _ hsave
+    refine ⟨c, by rw [q2, e1], by rw [qu, e3], by rw [qn, e5], ?_, ?_, ?_, ?_, ?_, ?_, ?_⟩
+    · intro e' he'; rw [q1, e4]; exact hpo e' he'
+    · intro x hx
+      rw [q3 x (by rw [sc4]; exact fun hm => hx ((hidmem x).1 hm)), e1]
+    · intro v hv
+      exact (hidmem _).1 (by rw [← sc4]; exact List.mem_map_of_mem (f := (·.id)) hv)
+    · intro x hx
+      have : x ∈ c.streams.map (·.id) := by rw [sc4]; exact (hidmem x).2 hx
+      obtain ⟨v, hv, he⟩ := List.mem_map.1 this
+      exact ⟨v, hv, he⟩
+    · exact q4
+    · intro x; rw [q5 x, e2]
+    · intro v hv
+      obtain ⟨k, hk, hkv⟩ := List.getElem_of_mem hv
+      have hk0 : k < (sortById streams).length := by rw [← wg.1]; exact hk
+      have hq := wq k hk0
+      -- slot k of the initial cache is the stored stream
+      have hslot0 : slot ⟨sortById streams, [], []⟩ k = (sortById streams)[k] := slot_eq ⟨sortById streams, [], []⟩ k hk0
+      have hslot : slot c k = v := by rw [slot_eq c k hk]; exact hkv
+      have hmem0 : (sortById streams)[k] ∈ sortById streams := List.getElem_mem hk0
+      obtain ⟨hget0, _⟩ := hin.2 _ hmem0
+      have hstat := slot_static wg k hk0
+      rw [hslot, hslot0] at hstat
+      have hidv : v.id = ((sortById streams)[k]).id := by rw [hstat]
+      refine ⟨(sortById streams)[k], by rw [hidv]; exact hget0, hstat, ?_⟩
+      intro i
+      have := hq i
+      unfold Qv distAt at this
+      rw [hslot, hslot0] at this
+      have hep : v.epochId = ((sortById streams)[k]).epochId := by rw [hstat]
+      rw [q1, e4, hep, pendId_static hstat]
+      rw [hep, pendId_static hstat] at this
+      exact this
+  by_cases hz : c.distributed.isZero = true
+  · simp only [hz, if_true] at h
+    cases hinc : incDistribute { s with ptrs := ps, bank := s.bank } c.gauges ee with
+    | error e => simp [hinc] at h
+    | ok s2 =>
+      simp only [hinc] at h
+      exact key s.bank (by intro i; have := (isZero_iff _).1 hz i; omega) s2 hinc h
+  · rw [if_neg hz] at h
+    cases hsend : s.bank.send streamerAddr incAddr c.distributed with
+    | none => simp [hsend] at h
+    | some b =>
+      simp only [hsend] at h
+      obtain ⟨_, sb⟩ := Bank.send_some hsend hne
+      cases hinc : incDistribute { s with ptrs := ps, bank := b } c.gauges ee with
+      | error e => simp [hinc] at h
+      | ok s2 =>
+        simp only [hinc] at h
+        refine key b ?_ s2 hinc h
+        intro i
+        have := sb incAddr i
+        rw [if_neg (fun x => hne x.symm), if_pos rfl] at this
+        exact this
+
 end DymVerif.Incent
